@@ -37,7 +37,7 @@ def handleCR (st : St) (n : Nat) (toks : List String) : Result := Id.run do
   let some submitted := (get "submitted").bind hexOfString | return { st, out := [s!"BAD {n} submitted"] }
   let (before, logsBefore) := parseReopen ((get "before").getD "")
   let (after, logsAfter) := parseReopen ((get "after").getD "")
-  let mut st := st.bump s!"crash.{kind}"
+  let mut st := st.bump (if (get "fault").isSome then s!"crash.{kind}.fault" else s!"crash.{kind}")
   let mut outs : List String := []
   -- model: the script the model expects for an accepting update, and where the kill struck
   -- the prediction uses the events the implementation actually issued (a rewrite may query differently);
@@ -46,7 +46,10 @@ def handleCR (st : St) (n : Nat) (toks : List String) : Result := Id.run do
   if (evs.filter (· == .commit)).length != 1 || !evs.contains .begin then
     ok := false
     outs := outs ++ [s!"DIVERGE {n} CR field=script model=one-transaction-one-commit impl={opsS}"]
-  let committed := (evs.take (killat - 1)).contains .commit
+  -- `fault=<op>`: that driver operation failed during the update and the process was killed after the call
+  -- returned; nothing can have been committed
+  let fault := (get "fault").getD ""
+  let committed := fault == "" && (evs.take (killat - 1)).contains .commit
   let oldState := ((before.find? (fun p => p.1 == logS)).map (·.2.1)).getD "?"
   let newState := ((after.find? (fun p => p.1 == logS)).map (·.2.1)).getD "?"
   let newText : Option Bytes := (hexOfString newState).bind (fun b => (B.splitLast b).map (·.1))
@@ -59,7 +62,7 @@ def handleCR (st : St) (n : Nat) (toks : List String) : Result := Id.run do
   if !committed && !(isOld) then
     ok := false
     outs := outs ++ [s!"DIVERGE {n} CR field=state model=old impl={if isNew then "new" else "other"}"]
-  if (killat > total) != !killed then
+  if fault == "" && (killat > total) != !killed then
     ok := false
     outs := outs ++ [s!"DIVERGE {n} CR field=killed model={decide (killat ≤ total)} impl={killed}"]
   if ok then
@@ -71,7 +74,7 @@ def handleCR (st : St) (n : Nat) (toks : List String) : Result := Id.run do
     let f := fail st n "C06" s!"{kind} update killed at driver event {killat}/{total}: after reopening, the log holds neither the old nor the new checkpoint ({newState.take 40})"
     st := f.st; outs := outs ++ f.out
   if acked && !isNew then
-    let f := fail st n "C06" s!"{kind} update was acknowledged before the kill (event {killat}) but is not in force after reopening"
+    let f := fail st n "C06" s!"{kind} update was acknowledged before the kill (event {killat}{if fault == "" then "" else ", after a failed " ++ fault}) but is not in force after reopening"
     st := f.st; outs := outs ++ f.out
   for (id, stt, opens) in after do
     if stt != "-" && opens != "1" then
